@@ -145,9 +145,9 @@ def case_term(case, events=None, policy=()):
 def dev_term(ev):
     k = ev[0]
     if k == 'DR':
-        return 'DSOp (DRead %d %d %d %d)' % (ev[1], ev[2], ev[3], ev[4])
+        return 'DSOp (DRead %d %d %d %s)' % (ev[1], ev[2], ev[3], coqrun.z(ev[4]))
     if k == 'DW':
-        return 'DSOp (DWrite %d %d %s %d)' % (ev[1], ev[2], coqrun.zlist(ev[3]), ev[4])
+        return 'DSOp (DWrite %d %d %s %s)' % (ev[1], ev[2], coqrun.zlist(ev[3]), coqrun.z(ev[4]))
     if k == 'D':
         return 'DSDeliver %d%%nat' % ev[1]
     t = ev_term(ev)
@@ -279,12 +279,13 @@ def gen_deck_case(rng, style):
         c = rng.random()
         if c < 0.16 or not rig.log and c < 0.5:
             n = rng.choice(R_LENS[:12]) if rng.random() < 0.8 else rng.randrange(0, 90)
-            do(['DR', rng.choice(BASES), rng.choice([0, 8, 0x40, 0x41, 100, 0xFFF0]), n, tok[0]])
+            do(['DR', rng.choice(BASES), rng.choice([0, 8, 0x40, 0x41, 100, 0xFFF0]), n,
+                tok[0] if rng.random() < 0.65 else -1 - tok[0]])            # negative: no failure callback
             tok[0] += 1
         elif c < 0.32 or not rig.log:
             n = rng.choice(W_LENS[:12]) if rng.random() < 0.8 else rng.randrange(0, 90)
             do(['DW', rng.choice(BASES), rng.choice([0, 8, 0x40, 0x41, 100, 0xFFF0]),
-                [rng.randrange(256) for _ in range(n)], tok[0]])
+                [rng.randrange(256) for _ in range(n)], tok[0] if rng.random() < 0.65 else -1 - tok[0]])
             tok[0] += 1
         elif c < 0.37:
             do(_gen_op(rng, [1, 2], rng.choice('RW'), 0))
@@ -776,9 +777,26 @@ class Judge:
                 self.flag('deck_request_accepted_while_one_outstanding', 'the manager took a second deck %s while one '
                           'is outstanding' % ev[0], k=k)
             self.drefusal = None
+        elif rig.last_raised and ev[0] in ('DR', 'DW'):
+            self.flag('deck_request_refused_without_reason', 'DeckMemory.%s raised %s although no deck %s is outstanding: '
+                      'a callback record was left behind' % ('read' if ev[0] == 'DR' else 'write', rig.last_exc,
+                                                            'read' if ev[0] == 'DR' else 'write'), 'served', 'raised', k)
+        elif rig.last_raised and "'NoneType' object is not callable" in rig.last_exc and \
+                any(t < 0 and d['kind'] == 'w' for t, d in self.dops.items()):
+            self.flag('deck_write_failed_without_callback_raises', 'a deck write made without write_failed_cb fails: the '
+                      'manager calls None (%s); the handler is left half way%s' % (rig.last_exc,
+                      ', the requests still to be failed by the link drop get no notification' if ev[0] == 'X' else ''),
+                      'no exception', 'raised', k)
         elif rig.last_raised and ev[0] != 'P':
             self.flag('handler_raises', 'an exception left %r' % (ev[:2],), 'no exception', 'raised', k)
         for tok, d in self.dops.items():
+            r0 = self.req.get(d['uid'])
+            if d['state'] == 'pending' and tok < 0 and r0 is not None and r0['state'] == 'done' \
+                    and r0.get('result') in ('rfail', 'wfail') and r0.get('deck') == tok:
+                d['state'] = 'done'            # failed, the caller passed no failure callback: nothing is owed
+                if self.dout[d['kind']] == tok:
+                    self.dout[d['kind']] = None
+                continue
             if d['state'] == 'pending' and (d['uid'] not in self.req or self.req[d['uid']]['state'] == 'done'):
                 self.flag('deck_request_not_notified', 'the transfer of deck request %r ended, its callbacks were not called' % tok, k=k)
         for i, u in self.handover.items():
@@ -933,7 +951,7 @@ class Judge:
         ids = sorted({r['id'] for r in self.req.values()} - ({c06_mem.DECK_ID} if self.dops else set())) or [1]
         rig.plan = []          # the probe is answered without refusals
         if self.dops:
-            t0 = max(self.dops) + 1
+            t0 = max([abs(t) for t in self.dops]) + 2
             base = len(rig.log)
             probe = [['DR', BASES[0], 0x10, 45, t0], ['DW', BASES[1], 5, [(13 * j) % 256 for j in range(30)], t0 + 1],
                      ['D', base + 1], ['D', base], ['D', base + 3], ['D', base + 2], ['D', base + 4]]
@@ -1089,6 +1107,18 @@ def deck_systematic_cases():
     # second read while one is outstanding: refused by the manager; link drop with both outstanding
     out.append({'plan': [], 'events': [['DR', A, 0, 45, 0], ['DR', B, 0, 5, 1], ['DW', B, 0, d60, 2], ['DW', A, 0, [1], 3],
                                        ['X'], ['DR', B, 8, 5, 4], ['D', 2], ['D', 0]]})
+    # the optional failure callbacks left out (negative tokens): the request fails at every chunk (error status) or by
+    # link loss; afterwards a read and a write on the same manager must be served
+    for k in (0, 1):
+        out.append({'plan': [0] * k + [9], 'events': [['DR', A, 0x40, 30, -1]] + [['D', j] for j in range(k + 1)]
+                    + [['DR', A, 0x40, 30, 2], ['D', k + 1], ['D', k + 2], ['DW', B, 8, d60, -3], ['D', k + 3], ['D', k + 4], ['D', k + 5]]})
+        out.append({'plan': [], 'events': [['DR', A, 0x40, 30, -1]] + [['D', j] for j in range(k)] + [['X']]
+                    + [['DR', B, 0, 5, -2], ['D', k + 1], ['DR', B, 0, 5, 3], ['D', k + 2]]})
+    for k in (0, 1, 2):
+        out.append({'plan': [0] * k + [9], 'events': [['DW', B, 8, d60, -1]] + [['D', j] for j in range(k + 1)]
+                    + [['DW', B, 8, d60, 2], ['D', k + 1], ['D', k + 2], ['D', k + 3], ['DR', A, 0, 5, -3], ['D', k + 4]]})
+    out.append({'plan': [], 'events': [['DW', B, 8, d60, -1], ['W', 1, 0, [1, 2, 3], False], ['R', 2, 0, 5], ['X'],
+                                       ['DW', B, 8, [1], 2], ['D', 3]]})
     return out
 
 
